@@ -17,7 +17,7 @@ import (
 func init() {
 	vfRegister(&vfProp{
 		id:       "C16",
-		classes:  []string{"os", "rs", "rs", "rs-alloc", "inmem", "rs-wire", "os-wire"},
+		classes:  []string{"os", "rs", "rs", "rs-alloc", "inmem", "rs-wire", "os-wire", "inmem-wire"},
 		gen:      c16Gen,
 		exec:     c16Exec,
 		maxSteps: 400000,
@@ -87,6 +87,16 @@ func c16Gen(class string, seed uint64, tier string) *vfScenario {
 		if rng.IntN(2) == 0 {
 			sc.Cfg["blocker"], sc.Cfg["sites"] = 1, int64(1+2*rng.IntN(2))
 		}
+		return sc
+	case "inmem-wire":
+		// the package's own in-memory backend; the directory changes between two READDIRs of one open handle
+		sc.Cfg["kind"], sc.Cfg["wire"] = 3, 1
+		B := 2 + rng.IntN(5)
+		sc.Cfg["B"] = int64(B)
+		sc.Cfg["n"] = int64(B + 1 + rng.IntN(2*B))
+		sc.Cfg["change"] = int64(rng.IntN(3)) // 0 none, 1 an entry that sorts first is removed, 2 one that sorts first is created
+		sc.Cfg["after"] = int64(1 + rng.IntN(3))
+		sc.Cfg["sites"] = int64(1 + rng.IntN(3))
 		return sc
 	case "inmem":
 		sc.Cfg["kind"] = 3
@@ -307,7 +317,137 @@ func c16Wire(r *vfRun) {
 	r.res.NonTrivial = true
 }
 
+// c16InMemWire: a wire-level session on the package's in-memory example backend. The directory is modified between two
+// READDIRs of one handle; every entry that exists throughout the listing must still come back exactly once.
+func c16InMemWire(r *vfRun) {
+	sc, sim := r.sc, r.sim
+	B := int(sc.cfg("B", 3))
+	old := MaxFilelist
+	MaxFilelist = int64(B)
+	defer func() { MaxFilelist = old }()
+	n := int(sc.cfg("n", 5))
+	change, after := int(sc.cfg("change", 0)), int(sc.cfg("after", 1))
+	sim.ticks = true
+	prog := []vfOp{{K: "init", A: 3}, {K: "mkdir", P: "/dd"}}
+	stable := map[string]bool{}
+	for i := 0; i < n; i++ {
+		name := fmt.Sprintf("m%03d", i)
+		prog = append(prog, vfOp{K: "open", P: "/dd/" + name, A: wfWrite | wfCreat, H: 100 + i}, vfOp{K: "close", H: 100 + i})
+		stable[name] = true
+	}
+	prog = append(prog, vfOp{K: "opendir", P: "/dd", H: 0})
+	rounds := n/B + 4
+	for i := 0; i < rounds; i++ {
+		if i == after {
+			switch change {
+			case 1:
+				prog = append(prog, vfOp{K: "remove", P: "/dd/m000"})
+				delete(stable, "m000")
+			case 2:
+				prog = append(prog, vfOp{K: "open", P: "/dd/a000", A: wfWrite | wfCreat, H: 99}, vfOp{K: "close", H: 99})
+			}
+		}
+		prog = append(prog, vfOp{K: "readdir", H: 0})
+	}
+	prog = append(prog, vfOp{K: "close", H: 0})
+	vfServerSites(sim, sc.cfg("sites", 3))
+	srv := &vfServer{sim: sim, kind: 1}
+	srv.c2s = sim.newPipe("c2s")
+	srv.s2c = sim.newPipe("s2c")
+	srv.end = &vfEnd{r: srv.c2s, w: srv.s2c, closeBoth: true}
+	rs := NewRequestServer(srv.end, InMemHandler())
+	srv.rs = rs
+	go func() {
+		err := rs.Serve()
+		srv.mu.Lock()
+		srv.done, srv.err = true, err
+		srv.mu.Unlock()
+		srv.end.Close()
+	}()
+	wc := vfNewWireClient(sim, srv.c2s, srv.s2c, prog)
+	wc.window = 1
+	sim.run(nil)
+	if sim.failed() {
+		return
+	}
+	r.sc.Cfg["kind"] = 1
+	c02CheckReplies(r, wc, true)
+	r.sc.Cfg["kind"] = 3
+	if sim.failed() {
+		r.sim.viol.Class = "C16/" + r.sim.viol.Class[4:]
+		return
+	}
+	got := map[string]int{}
+	ended := false
+	for i, op := range wc.ops {
+		p := wc.replies[i]
+		switch op.K {
+		case "mkdir", "remove", "close":
+			if p.Type != wtStatus || p.Code != wsOK {
+				r.fail("C16/setup", "setup", "%v answered %v", wc.reqs[i], p)
+				return
+			}
+		case "open", "opendir":
+			if p.Type != wtHandle {
+				r.fail("C16/setup", "setup", "%v answered %v", wc.reqs[i], p)
+				return
+			}
+		case "readdir":
+			switch {
+			case p.Type == wtName:
+				for _, e := range p.Names {
+					got[e.Name]++
+				}
+			case p.Type == wtStatus && p.Code == wsEOF:
+				ended = true
+			default:
+				r.fail("C16/listing-failed", "inmem-error", "READDIR answered %v", p)
+				return
+			}
+		}
+	}
+	if !ended {
+		r.fail("C16/listing-never-terminates", "inmem-liveness", "%d READDIR requests (batch %d) did not reach the end of a directory of %d entries", rounds, B, n)
+		return
+	}
+	var names []string
+	for name := range stable {
+		names = append(names, name)
+	}
+	sort.Strings(names)
+	what := []string{"nothing changed", "m000 was removed", "a000 was created"}[change%3]
+	for _, name := range names {
+		if got[name] != 1 {
+			cl := "C16/entry-lost"
+			if got[name] > 1 {
+				cl = "C16/entry-duplicated"
+			}
+			r.fail(cl, "inmem-change", "entry %q exists during the whole listing (%d entries, batch %d; after READDIR number %d %s) but was returned %d times", name, n, B, after, what, got[name])
+			return
+		}
+	}
+	for name, c := range got {
+		if !stable[name] && name != "m000" && name != "a000" && name != "." && name != ".." {
+			r.fail("C16/extra-entry", "inmem-extra", "entry %q (x%d) is not in the directory", name, c)
+			return
+		}
+	}
+	if change != 0 {
+		sim.count("probe.directory_changed_during_listing")
+	}
+	wc.mu.Lock()
+	wc.closed = true
+	wc.mu.Unlock()
+	srv.c2s.closeWriter()
+	sim.run(func() bool { d, _ := srv.served(); return d })
+	r.res.NonTrivial = n > B
+}
+
 func c16Exec(r *vfRun) {
+	if r.sc.cfg("wire", 0) != 0 && r.sc.cfg("kind", 0) == 3 {
+		c16InMemWire(r)
+		return
+	}
 	if r.sc.cfg("wire", 0) != 0 {
 		c16Wire(r)
 		return
